@@ -1050,6 +1050,59 @@ where
     }
 }
 
+/// every thread hammers setup_receiver + export on its OWN session (distinct recipient keys, same KEM) in a tight
+/// loop, without any barrier between iterations
+fn hammer_kem<A: AeadT, D: KdfT, K: KemT>(out: &mut CaseOut, suite: SuiteId, threads: u32, iters: u32, seed: u64)
+where
+    K::PrivateKey: Send + Sync,
+    K::EncappedKey: Send + Sync,
+{
+    let fxs: Vec<Arc<Fix>> = (0..threads as u64).map(|t| fix(suite, Mode::Base, 80 + t, seed)).collect();
+    let stop = std::sync::atomic::AtomicBool::new(false);
+    let barrier = std::sync::Barrier::new(threads as usize);
+    let bad: Vec<Option<String>> = std::thread::scope(|sc| {
+        let hs: Vec<_> = fxs
+            .iter()
+            .enumerate()
+            .map(|(t, fx)| {
+                let (stop, barrier) = (&stop, &barrier);
+                sc.spawn(move || {
+                    let sk = K::PrivateKey::from_bytes(&fx.k.sk_r).unwrap();
+                    let enc = K::EncappedKey::from_bytes(&fx.enc).unwrap();
+                    let mr = mode_r::<K>(&fx.m).unwrap();
+                    barrier.wait();
+                    for i in 0..iters {
+                        if stop.load(std::sync::atomic::Ordering::Relaxed) {
+                            break;
+                        }
+                        let r = std::panic::catch_unwind(std::panic::AssertUnwindSafe(|| {
+                            let mut o = vec![0u8; 40];
+                            match hpke::setup_receiver::<A, D, K>(&mr, &sk, &enc, &fx.info) {
+                                Ok(ctx) => {
+                                    ctx.export(b"e3", &mut o).unwrap();
+                                    o
+                                }
+                                Err(e) => format!("!{:?}", e).into_bytes(),
+                            }
+                        }))
+                        .unwrap_or_else(|_| b"!panicked".to_vec());
+                        if r != fx.export {
+                            stop.store(true, std::sync::atomic::Ordering::Relaxed);
+                            return Some(format!("thread {} iteration {}: {}", t, i, if r.first() == Some(&b'!') { String::from_utf8_lossy(&r).to_string() } else { obs::hx(&r) }));
+                        }
+                    }
+                    None
+                })
+            })
+            .collect();
+        hs.into_iter().map(|h| h.join().unwrap_or(Some("thread died".into()))).collect()
+    });
+    out.transitions += threads as u64 * iters as u64;
+    if let Some(b) = bad.into_iter().flatten().next() {
+        out.fail(format!("{}: {} receivers with distinct recipient keys hammering setup_receiver concurrently: {} differs from the sequential result", suite.name(), threads, b));
+    }
+}
+
 impl Part for SharedObjects {
     type Case = StressCase;
     fn name(&self) -> String {
@@ -1085,6 +1138,12 @@ impl Part for SharedObjects {
         let mut out = CaseOut::new();
         out.nontrivial = true;
         out.outcome = format!("stress/{}", c.kem.name());
+        let t = cfg.tier.thorough();
+        match c.kem {
+            Kem::X25519 => hammer_kem::<ChaCha20Poly1305, HkdfSha256, X25519HkdfSha256>(&mut out, SuiteId { kem: c.kem, kdf: Kdf::Sha256, aead: Aead::ChaCha20Poly1305 }, 8, if t { 120_000 } else { 20_000 }, cfg.seed),
+            Kem::P256 => hammer_kem::<AesGcm128, HkdfSha512, DhP256HkdfSha256>(&mut out, SuiteId { kem: c.kem, kdf: Kdf::Sha512, aead: Aead::Aes128Gcm }, 8, if t { 30_000 } else { 5_000 }, cfg.seed),
+            _ => {}
+        }
         match c.kem {
             Kem::X25519 => stress_kem::<ChaCha20Poly1305, HkdfSha256, X25519HkdfSha256>(&mut out, SuiteId { kem: c.kem, kdf: Kdf::Sha256, aead: Aead::ChaCha20Poly1305 }, c, cfg.seed),
             Kem::P256 => stress_kem::<AesGcm128, HkdfSha512, DhP256HkdfSha256>(&mut out, SuiteId { kem: c.kem, kdf: Kdf::Sha512, aead: Aead::Aes128Gcm }, c, cfg.seed),
